@@ -221,6 +221,16 @@ func TestSenderReports(t *testing.T) {
 				continue
 			}
 			b := streams[rapid.IntRange(0, ns-1).Draw(t, "stream")]
+			if rapid.IntRange(0, 60).Draw(t, "rebind") == 0 {
+				// the same SSRC is bound again without an Unbind, possibly with another negotiated clock rate (a replaced track):
+				// the reports of the new binding count its packets and use its clock rate
+				rate := rapid.SampledFrom([]uint32{8000, 48000, 90000}).Draw(t, "rebindRate")
+				b.info = &interceptor.StreamInfo{SSRC: b.info.SSRC, ClockRate: rate}
+				b.m = &streamModel{ssrc: b.info.SSRC, rate: float64(rate)}
+				b.w = ic.BindLocalStream(b.info, b.sink)
+				classes["rebind-without-unbind"] = true
+				h.U(0xFFFD, uint64(b.info.SSRC), uint64(rate))
+			}
 			var seq uint16
 			newFrame := rapid.IntRange(0, 2).Draw(t, "newFrame") != 0
 			switch {
